@@ -124,6 +124,8 @@ pub struct Profile {
     pub w_reopen: u64,
     pub w_c19: u64,
     pub big_contents: bool,
+    /// allow one content of 128 KiB .. 2.5 MiB (only in run classes that take no snapshots)
+    pub huge_contents: bool,
     pub big_keys: bool,
     pub allow_async: bool,
     pub allow_precreate: bool,
@@ -150,6 +152,7 @@ impl Profile {
             w_reopen: 0,
             w_c19: 0,
             big_contents: true,
+            huge_contents: false,
             big_keys: true,
             allow_async: true,
             allow_precreate: false,
@@ -184,7 +187,19 @@ pub fn gen_bound_pair(rng: &mut Rng, nk: usize) -> (B, B) {
     }
 }
 
+pub const HUGE_SIZES: [usize; 7] = [131_071, 131_072, 131_073, 200_000, 1_048_576, 1_048_577, 2_500_000];
+
 pub fn gen_chunks(rng: &mut Rng, len: usize) -> Vec<usize> {
+    if len > 100_000 && rng.chance(1, 2) {
+        // a large blob streamed in small pieces (how large blobs are written in practice), with a
+        // short tail so that bytes are still buffered when the transaction is finished
+        let piece = *rng.pick(&[1000usize, 4096, 8191, 8192, 8193, 65_536]);
+        let mut out = vec![piece; len / piece];
+        if len % piece > 0 {
+            out.push(len % piece);
+        }
+        return out;
+    }
     match rng.below(7) {
         0 => vec![len],
         1 if len <= 64 => vec![1; len],
@@ -236,8 +251,13 @@ pub fn gen_cfg(rng: &mut Rng, p: &Profile) -> Cfg {
 pub fn gen_contents(rng: &mut Rng, p: &Profile) -> Vec<ContentSpec> {
     let n = 3 + rng.below(4) as usize;
     let mut v: Vec<ContentSpec> = Vec::new();
+    // at most one content per run beyond the usual I/O-buffer sizes: thresholds that code may hide
+    // at 128 KiB or 1 MiB are reached by a (rare) blob of a few hundred KiB to a few MiB
+    let huge_at = if p.huge_contents && rng.chance(1, 10) { Some(rng.below(n as u64) as usize) } else { None };
     for i in 0..n {
-        let size = if rng.chance(2, 3) {
+        let size = if huge_at == Some(i) {
+            *rng.pick(&HUGE_SIZES)
+        } else if rng.chance(2, 3) {
             let s = *rng.pick(&SIZES);
             if s > 10_000 && !p.big_contents { 44 } else { s }
         } else if rng.chance(1, 4) && p.big_contents {
